@@ -121,12 +121,13 @@ SOURCES = SourceIndex()
 
 
 SPEC_ROOT = os.path.join(os.path.dirname(os.path.dirname(os.path.abspath(__file__))), "specs")
+GEN_ROOT = os.path.join(os.path.dirname(os.path.dirname(os.path.abspath(__file__))), ".gen")      # sources rewritten mechanically from /repo on every run
 
 
 def is_repo_code(code):
     """code that is interpreted from its AST: the repository, and the spec functions the contracts refer to"""
     fn = getattr(code, "co_filename", "")
-    return fn.startswith(REPO_ROOT + os.sep) or fn.startswith(SPEC_ROOT + os.sep)
+    return fn.startswith(REPO_ROOT + os.sep) or fn.startswith(SPEC_ROOT + os.sep) or fn.startswith(GEN_ROOT + os.sep)
 
 
 def is_repo_function(f):
